@@ -16,6 +16,7 @@ STUBS = [
     "generated function globals: numpy -> symx.npproxy, evaluable -> EvProxy, numeric -> NumericProxy, poly -> PolyProxy",
     "nutils.evaluable.numpy / nutils.numeric.numpy -> symx.npproxy while a compiled function runs",
     "InsertAxis.evalf, InRange.evalf, NormDim.evalf, numeric.accumulate, numeric.inv, numeric.sinc adapters",
+    "TransformBasis._transform_basis / TransformLinear._transform_linear run with real numpy (concrete transform chains)",
     "nutils_poly.eval_outer modelled (coefficient order validated against the extension at start-up)",
 ]
 
@@ -70,7 +71,26 @@ def _transform_coords(chain, coords):
             c = numpy.einsum('...j,ij->...i', c, SArray.wrap(lin)) + SArray.wrap(off)
     return c
 
-ADAPT = {('TransformCoords', '_transform_coords'): _transform_coords, ('InsertAxis', 'evalf'): _insertaxis, ('InRange', 'evalf'): _inrange, ('NormDim', 'evalf'): _normdim}
+@contextlib.contextmanager
+def concrete_modules():
+    '''real numpy inside nutils helpers that act on CONCRETE data (transform chains); nothing symbolic may be cached on nutils objects'''
+    saved = ev.numpy, numeric.numpy
+    ev.numpy = numeric.numpy = numpy
+    try:
+        yield
+    finally:
+        ev.numpy, numeric.numpy = saved
+
+def _concrete_helper(cls, name):
+    real = getattr(cls, name)
+    def call(*args):
+        with concrete_modules():
+            return SArray.wrap(numpy.asarray(real(*args), dtype=float))
+    return call
+
+ADAPT = {('TransformCoords', '_transform_coords'): _transform_coords,
+         ('TransformBasis', '_transform_basis'): _concrete_helper(ev.TransformBasis, '_transform_basis'),
+         ('TransformLinear', '_transform_linear'): _concrete_helper(ev.TransformLinear, '_transform_linear'), ('InsertAxis', 'evalf'): _insertaxis, ('InRange', 'evalf'): _inrange, ('NormDim', 'evalf'): _normdim}
 
 class _ClsProxy:
     def __init__(self, cls): self._cls = cls
@@ -156,7 +176,27 @@ def poly_eval_model(coeffs, x):
 
 class PolyProxy(pytypes.ModuleType):
     def __init__(self): super().__init__('polyproxy')
-    def __getattr__(self, n): return getattr(_poly, n)
+    def __getattr__(self, n):
+        real = getattr(_poly, n)
+        # the remaining nutils_poly entry points (mul, grad, change_degree, MulPlan, GradPlan, ...) act on COEFFICIENT arrays; these are concrete in
+        # every program of the families (basis tables), so the real extension is called on the concrete payload; symbolic coefficients are unsupported
+        def conc(a):
+            if isinstance(a, SArray):
+                if not all(is_concrete(v) for v in a.a.flat): raise Unsupported(f'nutils_poly.{n} on symbolic coefficients')
+                r = a.a.astype({'b': bool, 'i': int, 'f': float, 'c': complex}[a.kind])
+                return r[()].item() if r.ndim == 0 else r
+            if isinstance(a, (tuple, list)): return type(a)(conc(x) for x in a)
+            return a
+        def wrapcall(f):
+            def call(*args, **kw):
+                r = f(*[conc(a) for a in args], **{k: conc(v) for k, v in kw.items()})
+                return SArray.wrap(r) if isinstance(r, numpy.ndarray) else r
+            return call
+        if isinstance(real, type):
+            if n.endswith('Plan'): return lambda *args, **kw: wrapcall(real(*[conc(a) for a in args], **{k: conc(v) for k, v in kw.items()}))
+            return real
+        if not callable(real): return real
+        return wrapcall(real)
     def eval_outer(self, coeffs, points):
         # result shape: points.shape[:-1] + coeffs.shape[:-1]
         pts, cf = SArray.wrap(points), SArray.wrap(coeffs)
